@@ -39,6 +39,22 @@ Proof.
 Qed.
 Print Assumptions C39_transparent.
 
+(* ... also when the ROWS frame carries its OWN metadata (v5 Metadata_changed after ALTER TABLE, or v3/v4 without
+   skip_meta): whatever column list is cached with the prepared statement, decoding follows the in-frame list *)
+Theorem C39_transparent_metadata_changed : forall (V T : Type) (ser : T -> V -> option (list Z)) (deser : T -> list Z -> option V)
+         (enc dec : list Z -> list Z -> list Z -> list Z),
+  (forall k iv x, (length x mod 16 = 0)%nat -> dec k iv (enc k iv x) = x) ->
+  (forall t v b, ser t v = Some b -> deser t b = Some v) ->
+  forall iv cols cached (rows : list (list (option V))) wire, length iv = 16%nat ->
+  Forall (fun r => length r <= length cols)%nat rows ->
+  bind_rows V T ser enc iv cols rows = Some wire ->
+  recv_rows V T deser dec (Some cols) cached wire = Some rows.
+Proof.
+  intros V T ser deser enc dec Haes Hcodec iv cols cached rows wire Hiv Hall Hb. unfold recv_rows.
+  exact (rows_roundtrip V T ser deser enc dec Haes Hcodec iv cols rows wire Hiv Hall Hb).
+Qed.
+Print Assumptions C39_transparent_metadata_changed.
+
 (* non-null values of encrypted columns go out as iv ++ AES(pad(serialize v)) with the POLICY's type; nulls stay null;
    columns outside the policy go out as their plain serialization *)
 Theorem C39_sent_encrypted : forall (V T : Type) (ser : T -> V -> option (list Z)) (enc : list Z -> list Z -> list Z -> list Z)
